@@ -253,20 +253,28 @@ func (c *Ctx) c17IndexAgreement() {
 				}
 			}
 		}
-		seen := map[string]int{}
+		// one obligation per walk function: every key the walk builds from an element uses the reference constructor
+		seen := map[string]bool{}
 		for _, u := range byIdx[idx] {
 			n++
 			key := "index " + idx + ": walk in " + u.fn
-			seen[key]++
-			if seen[key] > 1 {
+			if seen[key] {
 				continue
 			}
+			seen[key] = true
 			src := "the walks' majority"
 			if len(assoc[idx]) == 1 {
 				src = "the constructor under which elements are written"
 			}
-			r.Check(u.ctor == ref, "R17.6", key, u.pos, "elements keyed with "+ref+" ("+src+")",
-				"elements of the index stored under "+idx+"(..) are turned into storage keys with "+u.ctor+" here, but their records live under "+ref+": the walk touches keys that do not exist and leaves the real records (e.g. the role record of a replaced admin, which the permission check reads) in place")
+			bad := u
+			okAll := true
+			for _, w := range byIdx[idx] {
+				if w.fn == u.fn && w.ctor != ref {
+					okAll, bad = false, w
+				}
+			}
+			r.Check(okAll, "R17.6", key, bad.pos, "elements keyed with "+ref+" ("+src+")",
+				"elements of the index stored under "+idx+"(..) are turned into storage keys with "+bad.ctor+" here, but their records live under "+ref+": the walk touches keys that do not exist and leaves the real records (e.g. the role record of a replaced admin, which the permission check reads) in place")
 		}
 	}
 	r.Floor("R17.6", "index walks building storage keys", n, 4)
